@@ -896,6 +896,18 @@ def run(ctx):
     check_node_classes(ctx)
     check_write(ctx)
     import_leaf(ctx)
+    # GPO's validation rounds: the reward is recorded in the score of the point being validated - the score slot of the running phase,
+    # kept as the running mean of that phase's validation rewards (C09's R09-VALID, re-reported)
+    from . import c09
+    tmp9 = Ctx(ctx.prop, ctx.tier, ctx.seed, ctx.model)
+    tmp9.attempt("R09-VALID", "PyXAB/algos", "check_validation", "scores", c09.check_validation, tmp9)
+    for o in tmp9.obligations:
+        if o["rule"] == "R09-VALID":
+            ctx.obligations.append(dict(o, rule="R04-SCORE"))
+    for f in tmp9.findings:
+        if f.rule == "R09-VALID":
+            ctx.add_finding("R04-SCORE", f.file, f.qual, f.construct, f.why, f.line)
+    ctx.functions |= tmp9.functions
     # every cell created by a split has its own evidence fields (no sharing between siblings)
     from .. import partition_step as PS
     groups = {}
